@@ -204,6 +204,22 @@ func genC13(r *Rng, tier string) []Case {
 		}
 		one(m)
 	}
+	// a byte / text string of every length class as the last thing of the input (top level, last array
+	// element, last map value), complete, with 1 or 2 final bytes missing, and with one extra byte
+	for _, n := range []int{0, 1, 22, 23, 24, 25, 100, 255, 256, 257, 1000} {
+		for _, major := range []byte{0x40, 0x60} {
+			str := append(canonHead(major, uint64(n)), asciiBytes(r, n)...)
+			wraps := [][]byte{str, append([]byte{0x82, 0x01}, str...), append([]byte{0xa1, 0x01}, str...),
+				append([]byte{0x81, 0x82, 0x00}, str...), append(append([]byte{0xa2, 0x01}, str...), append([]byte{0x02}, str...)...)}
+			for _, w := range wraps {
+				one(w)
+				for cut := 1; cut <= 2 && cut < len(w); cut++ {
+					one(w[:len(w)-cut])
+				}
+				one(append(append([]byte{}, w...), 0x00))
+			}
+		}
+	}
 	// maps with swapped / duplicated key pairs, built explicitly
 	for i := 0; i < 400; i++ {
 		nk := 2 + r.Intn(4)
